@@ -89,8 +89,12 @@ func extendUndo(t Type) func() {
 			tt.Members = members
 			ub()
 		}
-	case *Scalar:
-		return undoBase(&tt.Base)
+	}
+	// Scalars, the built in ones and the string based ones created for a
+	// 'scalar' definition, are all structs that embed a Scalar and through
+	// that a Base which is the only part an extend can change.
+	if bt, ok := t.(interface{ base() *Base }); ok {
+		return undoBase(bt.base())
 	}
 	return func() {}
 }
